@@ -38,7 +38,9 @@ def del_comments(text: str) -> str:
     """
     def replacer(match) -> str:
         s = match.group(0)
-        return " " if s.startswith('/') else s
+        if s.startswith('/'):  # a comment keeps its line breaks
+            return "\n" * s.count("\n") or " "
+        return s
 
     pattern = re.compile(
         r'//.*?$|/\*.*?\*/|\'(?:\\.|[^\\\'])*\'|"(?:\\.|[^\\"])*"',
